@@ -1,6 +1,14 @@
 """C10 — chord labels: total parsing, sound encoding, split/join round trip  (DESIGN.md §5 C10).
 
 Correspondence (model `MirModel.Chord.*` vs the real `mir_eval.chord`):
+  re_match    `CHORD_RE.match` vs the REGENERATED regex (`MirGen/ChordRe.lean`, harness/translate/regex.py) run by the
+              proved matcher `Rx.matchPrefix` (op chord.re_match), and its `$`-variant vs the same pattern compiled with
+              `$` (op chord.re_match_dollar): this is the check that Python's `re` implements the regex semantics
+              `Rx.Matches` -- labels, mutations, all short strings, trailing / embedded newlines, NUL, other line
+              separators, non-ASCII look-alikes, accidental runs of several thousand characters, long degree lists
+  rx          random small patterns over every construct the translator supports (classes, negated classes, `.`, groups,
+              alternation, greedy / lazy `* + ? {m,n} {m,}`, `^ \\A $ \\Z` anywhere, bodies that match the empty word):
+              `re.compile(p).match / fullmatch` vs the Lean matcher on the translator's reading of Python's parse tree
   accept      `CHORD_RE.match` vs the model of the regex (`reMatch`), and the Lean grammar recogniser
               (`recognize`) vs the harness's own recursive-descent reference grammar, on every
               grammar-derivable label up to a depth (sampled in quick, enumerated in thorough), every short
@@ -24,21 +32,27 @@ import mir_eval.chord as chord
 from core import Case
 
 PID = "C10"
-LEAN_MODULES = ["MirProofs.Props.C10"]
-TRANSLATOR_PARTS = ["tables"]
-RULE = ("labels = mixed-radix enumeration root(7 letters x {'',b,#,bb,##}) x body(none | 26 shorthands | "
+LEAN_MODULES = ["MirProofs.Props.C10", "MirProofs.Props.C10_Regex"]
+TRANSLATOR_PARTS = ["tables", "regex"]
+RULE = ("re_match: the label streams below + every string of length <= 3 (quick) / 4 (thorough) over 19 characters + "
+        "labels with newline / NUL / CR / U+0085 / U+2028 / non-ASCII look-alikes appended, prepended or embedded + accidental "
+        "runs of 50..4000 characters (pure, mixed, wrongly terminated) + degree lists of up to 60 items (valid) and up to 5 "
+        "items (damaged; CPython's matcher needs ~4^n steps to reject n items). "
+        "labels = mixed-radix enumeration root(7 letters x {'',b,#,bb,##}) x body(none | 26 shorthands | "
         "shorthand+1 degree item | 1 degree item alone; 78 items) x bass(none | 39 degrees) = 2 986 200 labels "
         "(quick: stratified sample, thorough: all, sharded); all strings of length <= 3 (quick) / 4 (thorough) over "
         "a 19-character alphabet; random labels with degree lists <= 4 and accidental runs <= 5; single-character "
         "insert/delete/duplicate/replace mutations (alphabet A-Ha-h#b*/(),:0-9NX, blank, newline, Unicode), doubled "
         "separators, trailing newline. non-trivial = the real code accepts the string (it reaches split/encode)")
-ASSUMPTIONS = ["Python's `re` engine is trusted: CHORD_RE is not translated; its language is identified with the "
-               "Lean grammar by the exhaustive-to-depth differential (suite `accept`)",
+ASSUMPTIONS = ["Python's `re` engine implements the regular-expression semantics `Rx.Matches` (MirProofs/Lemmas/Regex.lean) on "
+               "the pattern of CHORD_RE: literals, classes of code-point ranges, `*`, `?`, alternation, groups, `^`, `\\Z` "
+               "(and `$` = end or before one final '\\n'); validated on every run by suite `re_match`, not proved. Strings "
+               "are sequences of Unicode scalar values (lone surrogates are outside the model)",
+               "harness/translate/regex.py reads the pattern, the (absent) flags and the method (`match`) from chord.py's "
+               "AST and parses the pattern with Python's own `re._parser`; it fails closed on anything else",
                "Python set iteration order is unobservable by encode (bitmap sums commute; proved for every "
                "permutation in join_split_encode)"]
-UNPROVED = ["CHORD_RE itself is not translated into Lean: `reMatch` = the grammar language stands for `CHORD_RE.match`; "
-            "regex ≡ grammar is established by the exhaustive-to-depth differential (suite `accept`, which also feeds "
-            "trailing-newline strings), not by a theorem"]
+UNPROVED = []        # regex = grammar is now a theorem about the regenerated pattern (Props/C10_Regex.lean: regex_iff_grammar)
 EXHAUSTIVE = {"quick": False, "thorough": True}
 
 # ------------------------------------------------------------------------------------------------
@@ -409,6 +423,170 @@ def suite_accept(rng, tier, shard, nshards):
                    tag="recognize-op", info={"label": s}, nontrivial=_accept(s))
 
 
+# ---- CHORD_RE itself vs the regenerated regex run by the proved matcher -------------------------------------------
+
+_DOLLAR = {}
+
+
+def _dollar_re():
+    """the pattern of CHORD_RE with every `\\Z` replaced by `$` (what `Regex.dollarize` does to the generated term)"""
+    pat = chord.CHORD_RE.pattern
+    if pat not in _DOLLAR:
+        import re as _re
+        _DOLLAR[pat] = _re.compile(pat.replace("\\Z", "$"), chord.CHORD_RE.flags)
+    return _DOLLAR[pat]
+
+
+def re_case(s, tag, dollar=False, full=False):
+    if full:
+        return Case("chord.re_fullmatch", [s], lambda s=s: bool(chord.CHORD_RE.fullmatch(s)), tag=tag + ":fullmatch",
+                    info={"label": s}, nontrivial=grammar(s) is not None)
+    if dollar:
+        return Case("chord.re_match_dollar", [s], lambda s=s: bool(_dollar_re().match(s)), tag=tag + ":$",
+                    info={"label": s}, nontrivial=grammar(s.rstrip("\n")) is not None)
+    return Case("chord.re_match", [s], lambda s=s: bool(chord.CHORD_RE.match(s)), tag=tag, info={"label": s},
+                nontrivial=grammar(s) is not None)
+
+
+LINE_ENDS = ["\n", "\n\n", "\r", "\r\n", "\x00", "\x0b", "\x0c", "\x1c", "\x85", "\u2028", "\u2029", " ", "\t"]
+LOOKALIKES = {"C": "\uff23", "A": "\u0391", "b": "\u266d", "#": "\u266f", "1": "\uff11", "3": "\u0663", "7": "\U0001d7d5",
+              ":": "\uff1a", "/": "\u2215", "(": "\uff08", "m": "\u217f", "N": "\u039d", "X": "\u03a7"}
+
+
+def _odd_variants(rng, s):
+    e = rng.choice(LINE_ENDS)
+    yield s + e
+    yield e + s
+    if s:
+        i = rng.randrange(len(s) + 1)
+        yield s[:i] + e + s[i:]
+        j = rng.randrange(len(s))
+        if s[j] in LOOKALIKES:
+            yield s[:j] + LOOKALIKES[s[j]] + s[j + 1:]
+        yield s[:j] + chr(rng.choice([0, 1, 0x7f, 0x80, 0xff, 0x100, 0xd7ff, 0xe000, 0xffff, 0x10000, 0x10ffff,
+                                       ord(s[j]) + 1, max(0, ord(s[j]) - 1), ord(s[j]) + 0x100])) + s[j + 1:]
+
+
+def _long_runs(rng, tier):
+    sizes = [50, 333, 1000] + ([2500, 4000] if tier == "thorough" else [])
+    for n in sizes:
+        for c in "b#":
+            run = c * n
+            yield "C" + run                                  # root accidentals
+            yield "C" + run + ":min7"
+            yield "G:maj(" + run + "3)"                      # degree accidentals
+            yield "G:(*" + run + "13,5)/" + run + "5"
+            yield "A/" + run + "7"                           # bass accidentals
+            yield "A/" + run                                 # run not followed by a degree number
+            yield "C" + run + "\n"
+            yield "C" + run[:n // 2] + ("#" if c == "b" else "b") + run[n // 2:]     # a mixed run
+            yield "C" + run + "x"
+            yield "G:maj(" + run + ")"
+            yield "G:maj(" + run + "14)"
+        yield "1" * n
+        yield "C:" + "maj" * n
+        yield "C" + "/5" * n
+        yield "C" + ":" * n
+        yield "N" * n
+        yield "\n" * n
+
+
+def _long_lists(rng, tier):
+    for n in ([7, 20, 60] if tier == "thorough" else [7, 25]):
+        items = [rng.choice(["", "*"]) + _rand_degree(rng) for _ in range(n)]
+        body = "(" + ",".join(items) + ")"
+        for head in ["C:maj", "Db:", "F#:min7"]:
+            yield head + body                                 # valid: matched without backtracking
+            yield head + body + "/" + _rand_degree(rng)
+    for n in (2, 3, 4, 5):                                    # damaged: rejected only after ~4^n attempts by CPython
+        items = [rng.choice(["", "*"]) + _rand_degree(rng) for _ in range(n)]
+        for tail in [",)", ")x", "", "))", ",14)", ")/", ")\n"]:
+            yield "C:maj(" + ",".join(items) + tail
+            yield "C:(" + ",".join(items) + tail
+
+
+def suite_re_match(rng, tier, shard, nshards):
+    # every short string over the label alphabet (which contains the newline)
+    maxlen = 4 if tier == "thorough" else 3
+    for i, s in enumerate(short_strings(maxlen)):
+        if i % nshards == shard:
+            yield re_case(s, "short-strings")
+            if "\n" in s:
+                yield re_case(s, "short-strings", dollar=True)
+    # grammar-derivable labels, deeper random labels, mutations, and their odd-character variants
+    n = 12000 if tier == "thorough" else 1200
+    for _ in range(n):
+        for s in (sample_label(rng), random_label(rng)):
+            yield re_case(s, "label")
+            m = mutate(rng, s)
+            yield re_case(m, "mutated")
+            if rng.random() < 0.3:
+                yield re_case(mutate(rng, m), "mutated-twice")
+            for v in _odd_variants(rng, s if rng.random() < 0.7 else m):
+                yield re_case(v, "odd-characters")
+                if v.endswith("\n") or rng.random() < 0.1:
+                    yield re_case(v, "odd-characters", dollar=True)
+                    yield re_case(v, "odd-characters", full=True)
+    for s in ["", "N", "X", "N\n", "X\n", "\n", "NX", "C\n", "C:maj\n", "C:maj\n\n", "C\n:maj", "\nC", "C/5\n", "C:(3)\n",
+              "C:maj(3)\n", "C\x00", "\x00C", "C:maj\r", "C:maj\u2028", "C:maj\x85", "C/", "C:", "C:()", "C:maj()", "C/10", "C/14",
+              "C/0", "C:1", "C:10", "C:11", "C:13", "C:14", "C:maj13", "C:maj1", "C:(13)", "C:(1,13)", "C:(10,1)", "H", "c",
+              "C//5", "C/5/5", "C:maj:maj", "C(3)", "Cb#", "C#b", "C:minmaj7", "C:hdim7(*b5)/b5"][shard::nshards]:
+        yield re_case(s, "fixed")
+        yield re_case(s, "fixed", dollar=True)
+        yield re_case(s, "fixed", full=True)
+    # very long accidental runs and long degree lists (a few per shard)
+    for i, s in enumerate(_long_runs(rng, tier)):
+        if i % nshards == shard:
+            yield re_case(s, "long-runs")
+            if s.endswith("\n"):
+                yield re_case(s, "long-runs", dollar=True)
+    for i, s in enumerate(_long_lists(rng, tier)):
+        if i % nshards == shard:
+            yield re_case(s, "long-lists")
+
+
+# ---- the regex semantics itself: random patterns, Python's `re` vs the Lean matcher ---------------------------------
+
+def _rand_pattern(rng, depth):
+    """a random pattern over the constructs the translator supports (always compiles; no stacked quantifiers)"""
+    k = rng.randrange(12 if depth > 0 else 6)
+    if k < 6:
+        return rng.choice(["a", "b", "c", "a", "b", "\\n", ".", "[ab]", "[^a]", "[a-c]", "[^b\\n]", "[b-c\\n]", "^", "$", "\\A",
+                           "\\Z", "", "ab", "ba"])
+    if k in (6, 7):
+        return _rand_pattern(rng, depth - 1) + _rand_pattern(rng, depth - 1)
+    if k == 8:
+        return "(%s|%s)" % (_rand_pattern(rng, depth - 1), _rand_pattern(rng, depth - 1))
+    if k == 9:
+        return "(?:%s|%s|%s)" % tuple(_rand_pattern(rng, depth - 1) for _ in range(3))
+    q = rng.choice(["*", "+", "?", "*?", "+?", "??", "{2}", "{1,2}", "{0,2}", "{2,}", "{1,3}?", "{0,}", "*", "?", "+"])
+    return "(%s)%s" % (_rand_pattern(rng, depth - 1), q)
+
+
+def suite_rx(rng, tier, shard, nshards):
+    import re as _re
+    from translate import regex as tr
+    fixed = ["(a*)*b", "(a|)*b", "(|a)*b", "(a?)*$", "(a*)+\\Z", "(^a)*", "(a$)*", "(a|ab)(c|bcd)(d*)", "a*?b", "(a|b)*?c$",
+             "^$", "$^", "a$\\n", "(a$\\n?)*", ".*", ".*$", "[^a]*\\Z", "(\\n)*$", "\\n$", "\\n\\Z", "($)*", "(^)*a", "(a{2,3}){2}",
+             "(ab?){1,2}b", "((a|b)(c|)){0,2}", "(a{0,}b{1,})*?c", "", "()", "(|)", "a|", "|a", "(a|b|)\\Z", "(.|\\n)*"]
+    pats = fixed[shard::nshards]
+    n = 2500 if tier == "thorough" else 260
+    pats += [_rand_pattern(rng, 3) for _ in range(n)]
+    for pat in pats:
+        try:
+            cre = _re.compile(pat)
+            w = tr.wire(tr.parse_pattern(pat))
+        except (_re.error, tr.Unsupported, RecursionError):
+            continue
+        subjects = ["", "a", "b", "\n", "ab", "a\n", "ab\n", "aab", "abc\n", "aa\n\n", "\na", "ba", "cab"]
+        subjects += ["".join(rng.choice("aabbc\n") for _ in range(rng.randint(1, 7))) for _ in range(7)]
+        for subj in subjects:
+            yield Case("rx.match", [w, subj], lambda cre=cre, subj=subj: bool(cre.match(subj)), tag="rx:match",
+                       info={"pattern": pat, "subject": subj}, nontrivial=bool(cre.match(subj)))
+            yield Case("rx.fullmatch", [w, subj], lambda cre=cre, subj=subj: bool(cre.fullmatch(subj)), tag="rx:fullmatch",
+                       info={"pattern": pat, "subject": subj}, nontrivial=bool(cre.fullmatch(subj)))
+
+
 def encode_cases(s, tag, flags=((False, False), (False, True), (True, False), (True, True))):
     nt = _accept(s)
     info = {"label": s}
@@ -527,7 +705,7 @@ def suite_primitives(rng, tier, shard, nshards):
                    tag="reduce_extended_quality", info=info, post=_post_redux)
 
 
-SUITES = {"accept": suite_accept, "encode": suite_encode, "join": suite_join, "primitives": suite_primitives}
+SUITES = {"re_match": suite_re_match, "rx": suite_rx, "accept": suite_accept, "encode": suite_encode, "join": suite_join, "primitives": suite_primitives}
 
 
 # ------------------------------------------------------------------------------------------------
@@ -688,6 +866,6 @@ def classify(suite, d):
         return "chord.encode_many", {"labels": i["labels"], "reduce": i.get("reduce", False)}
     if "label" not in i:
         return None
-    if d["op"] in ("chord.accept", "chord.validate", "chord.recognize"):
+    if d["op"] in ("chord.accept", "chord.validate", "chord.recognize", "chord.re_match"):
         return "chord.validate_chord_label", {"label": i["label"]}
     return "chord.encode", {"label": i["label"], "reduce": i.get("reduce", False), "strict": i.get("strict", False)}
